@@ -180,6 +180,16 @@ class Run:
         """Remember a multivector and its coefficients.  With hold=False the harness keeps only a weak
         reference after the end of the current operation, the way user code drops temporaries."""
         import weakref
+        t = self.sim.current_thread() if self.sim is not None else None
+        if t is not None:
+            t.atomic += 1           # the harness reads coefficients through the public accessors
+        try:
+            self._track(label, obj, hold, weakref)
+        finally:
+            if t is not None:
+                t.atomic -= 1
+
+    def _track(self, label, obj, hold, weakref):
         for mv in ops.collect_mvs(obj, []):
             if hold or self.trace['world'].get('hold_refs', True):
                 self.tracked.append((label, (lambda m: (lambda: m))(mv), ops.snapshot(mv)))
@@ -191,6 +201,16 @@ class Run:
                 self.tracked.append((label, weakref.ref(mv), ops.snapshot(mv)))
 
     def check_tracked(self, where):
+        t = self.sim.current_thread() if self.sim is not None else None
+        if t is not None:
+            t.atomic += 1
+        try:
+            self._check_tracked(where)
+        finally:
+            if t is not None:
+                t.atomic -= 1
+
+    def _check_tracked(self, where):
         alive = []
         bad = None
         for label, ref, snap in self.tracked:
